@@ -745,6 +745,11 @@ class Executor:
         parent_ref, key_term, kind = o.origin
         parent = st.heap[parent_ref.id]
         term = o.ty.embed(st, self._ref_of(o))
+        if isinstance(kind, tuple) and kind and kind[0] == "tuple":
+            # the container is item `idx` of a tuple stored in the parent's slot: rebuild the tuple
+            _, _, tt, idx = kind
+            cur = parent.vals[key_term] if isinstance(parent, DictObj) else parent.elems[key_term]
+            term = tt.dt.mk(*[term if j == idx else tt.dt.accessor(0, j)(cur) for j in range(len(tt.items))])
         if isinstance(parent, DictObj):
             parent.vals = z3.Store(parent.vals, key_term, term)
         elif isinstance(parent, ListObj):
